@@ -74,6 +74,11 @@ def _list_items(cp):
   orphan_sections = cp.orphan_sections
   raw_items = _parse_raw(cp, orphan_sections)
   items.extend(raw_items)
+
+  # [Variables] is the parser's default section and is not reported by sections()
+  raw_cp = cp.raw_config_parser
+  if raw_cp.defaults():
+    items.extend(_list_section(cp, raw_cp.default_section))
   return items
 
 def _list_item_labels(cp):
